@@ -53,31 +53,32 @@ def rewriteLeaf (v : JVal) : JVal :=
   else if v = .str "-inf" then .float .ninf
   else v
 
+mutual
+/-- the value `update_conf` stores under a key: `dv` is what the (copied) default holds under that
+    key (`config.get(key)`), the argument the user's value.  A user dictionary met where the default
+    holds a non-dictionary raises on its first item (`TypeError` on the item assignment,
+    `AttributeError` on `config.get` when that item is itself a dictionary); when that user
+    dictionary is empty nothing happens and the default value is kept. -/
+def updateVal (dv : Option JVal) : JVal → Except Err JVal
+  | .obj sub =>
+    match dv with
+    | none => (updateConf [] sub).map JVal.obj
+    | some (.obj dsub) => (updateConf dsub sub).map JVal.obj
+    | some other =>
+      match sub with
+      | [] => .ok other
+      | (_, .obj _) :: _ => .error .attr     -- `config.get(…)` on a non-dictionary
+      | _ :: _ => .error .type               -- item assignment on a non-dictionary
+  | leaf => .ok (rewriteLeaf leaf)
 /-- `update_conf(def_cfg, user_cfg)`: `d` is the (copied) default dictionary, the second argument
-    the items of the user dictionary in order.  A user dictionary met where the default holds a
-    non-dictionary raises on its first item (`TypeError` on the item assignment, `AttributeError` on
-    `config.get` when that item is itself a dictionary); nothing happens when the user dictionary is
-    empty: the default value is kept. -/
+    the items of the user dictionary in order. -/
 def updateConf (d : Dict) : Dict → Except Err Dict
   | [] => .ok d
   | (k, v) :: rest =>
-    match v with
-    | .obj sub =>
-      match Dict.lookup d k with
-      | none =>
-        match updateConf [] sub with
-        | .error e => .error e
-        | .ok r => updateConf (Dict.setKey d k (.obj r)) rest
-      | some (.obj dsub) =>
-        match updateConf dsub sub with
-        | .error e => .error e
-        | .ok r => updateConf (Dict.setKey d k (.obj r)) rest
-      | some other =>
-        match sub with
-        | [] => updateConf (Dict.setKey d k other) rest
-        | (_, .obj _) :: _ => .error .attr     -- `config.get(…)` on a non-dictionary
-        | _ :: _ => .error .type               -- item assignment on a non-dictionary
-    | leaf => updateConf (Dict.setKey d k (rewriteLeaf leaf)) rest
+    match updateVal (Dict.lookup d k) v with
+    | .error e => .error e
+    | .ok v' => updateConf (Dict.setKey d k v') rest
+end
 
 /-! ### Step classes -/
 
@@ -160,13 +161,25 @@ def construct (o : Oracle) (k : KindDesc) (l r : ImgInfo) (cfg : Dict) : Except 
 
 /-! ### The machine's check callbacks -/
 
+/-- two facts about `state_machine.py` the translator reads from the source (both `false` in the
+    tree the findings of C05 were made on; the proposed fixes turn them to `true`):
+    * `bandWhole`: `check_band_pipeline` treats a string `band_used` as one band name instead of
+      iterating over its characters;
+    * `resetPipelineCfg`: `check_conf` empties `self.pipeline_cfg` before its first round. -/
+structure MachineFlags where
+  bandWhole : Bool := false
+  resetPipelineCfg : Bool := false
+  deriving Repr, DecidableEq, Inhabited
+
 /-- `PandoraMachine.check_band_pipeline(band_list, step, band_used)` for the `band` of a matching
     cost step: `None`/`""` needs a one-band image; a string is iterated character by character
-    (`for band in band_used`), each character must be a band name. -/
-def bandCheck (bands : List (Option String)) (band : JVal) : Bool :=
+    (`for band in band_used`), each character must be a band name — unless the source wraps the
+    string into a list first (`whole`). -/
+def bandCheck (whole : Bool) (bands : List (Option String)) (band : JVal) : Bool :=
   match band with
   | .str s =>
     if s = "" then bands.length == 1
+    else if whole then bands.contains (some s)
     else s.toList.all (fun ch => bands.contains (some (String.singleton ch)))
   | .null => bands.length == 1
   | _ => false
@@ -186,7 +199,7 @@ def kindDesc? (reg : List KindDesc) (kind : String) : Option KindDesc :=
 
 /-- The callback `<kind>_check_conf(cfg, input_step)`; `stepCfg = cfg[input_step]`.
     Errors are the exception raised *inside* the callback (the loop wraps some of them). -/
-def stepCallback (o : Oracle) (reg : List KindDesc) (kind : Machine.Kind) (name : String)
+def stepCallback (o : Oracle) (fl : MachineFlags) (reg : List KindDesc) (kind : Machine.Kind) (name : String)
     (stepCfg : JVal) (l r : ImgInfo) (m : CState) : Except Err CState :=
   match stepCfg with
   | .obj cfg =>
@@ -207,7 +220,8 @@ def stepCallback (o : Oracle) (reg : List KindDesc) (kind : Machine.Kind) (name 
           let m' := { m with pipelineCfg := Dict.setKey m.pipelineCfg name (.obj out),
                              step := (Dict.lookup out "step").getD (.int 1) }
           let band := (Dict.lookup out "band").getD .null
-          if bandCheck l.bands band && bandCheck r.bands band then .ok m' else .error .attr
+          if bandCheck fl.bandWhole l.bands band && bandCheck fl.bandWhole r.bands band then .ok m'
+          else .error .attr
       | .validation =>
         match construct o kd l r cfg with
         | .error e => .error e
@@ -236,7 +250,7 @@ def wrapErr : Err → Err
   | e => e
 
 /-- the loop `for input_step in list(cfg["pipeline"])` of one round, from automaton state `st` -/
-def checkLoop (o : Oracle) (reg : List KindDesc) (pipeline : Dict) (l r : ImgInfo) :
+def checkLoop (o : Oracle) (fl : MachineFlags) (reg : List KindDesc) (pipeline : Dict) (l r : ImgInfo) :
     Machine.St → List String → CState → Except Err CState
   | _, [], m => .ok m
   | st, n :: ns, m =>
@@ -246,18 +260,19 @@ def checkLoop (o : Oracle) (reg : List KindDesc) (pipeline : Dict) (l r : ImgInf
       match Machine.documented st k with
       | none => .error .machine        -- MachineError: no transition from this state
       | some st' =>
-        match stepCallback o reg k n ((Dict.lookup pipeline n).getD .null) l r m with
+        match stepCallback o fl reg k n ((Dict.lookup pipeline n).getD .null) l r m with
         | .error e => .error (wrapErr e)
-        | .ok m' => checkLoop o reg pipeline l r st' ns m'
+        | .ok m' => checkLoop o fl reg pipeline l r st' ns m'
 
 /-- `PandoraMachine.check_conf(cfg, img_left, img_right)`: first round, then the right/left round
     when `right_disp_map` is set -/
-def machineCheck (o : Oracle) (reg : List KindDesc) (pipeline : Dict) (l r : ImgInfo) (m : CState) :
-    Except Err CState :=
-  match checkLoop o reg pipeline l r .begin (Dict.keys pipeline) m with
+def machineCheck (o : Oracle) (fl : MachineFlags) (reg : List KindDesc) (pipeline : Dict) (l r : ImgInfo)
+    (m : CState) : Except Err CState :=
+  let m0 := if fl.resetPipelineCfg then { m with pipelineCfg := [] } else m
+  match checkLoop o fl reg pipeline l r .begin (Dict.keys pipeline) m0 with
   | .error e => .error e
   | .ok m1 =>
-    if m1.rightDispMap then checkLoop o reg pipeline r l .begin (Dict.keys pipeline) m1 else .ok m1
+    if m1.rightDispMap then checkLoop o fl reg pipeline r l .begin (Dict.keys pipeline) m1 else .ok m1
 
 /-! ### check_pipeline_section -/
 
@@ -265,14 +280,14 @@ def defaultPipeline : Dict := [("pipeline", .obj [])]
 
 /-- `check_pipeline_section(user_cfg, img_left, img_right, machine)`; `user` is what
     `get_config_pipeline` kept (`{"pipeline": …}` or `{}`) -/
-def checkPipelineSection (o : Oracle) (reg : List KindDesc) (user : Dict) (l r : ImgInfo) (m : CState) :
-    Except Err (Dict × CState) :=
+def checkPipelineSection (o : Oracle) (fl : MachineFlags) (reg : List KindDesc) (user : Dict) (l r : ImgInfo)
+    (m : CState) : Except Err (Dict × CState) :=
   match updateConf defaultPipeline user with
   | .error e => .error e
   | .ok cfg =>
     match Dict.lookup cfg "pipeline" with
     | some (.obj pipeline) =>
-      match machineCheck o reg pipeline l r m with
+      match machineCheck o fl reg pipeline l r m with
       | .error e => .error e
       | .ok m' =>
         match updateConf cfg [("pipeline", .obj m'.pipelineCfg)] with
@@ -481,15 +496,15 @@ def metadata (files : Files) (side : JVal) : ImgInfo :=
   | _ => {}
 
 /-- `check_conf(user_cfg, pandora_machine)` → checked configuration and the machine afterwards -/
-def checkConf (files : Files) (sch : InputSchemas) (reg : List KindDesc) (user : Dict) (m : CState) :
-    Except Err (Dict × CState) :=
+def checkConf (files : Files) (sch : InputSchemas) (fl : MachineFlags) (reg : List KindDesc) (user : Dict)
+    (m : CState) : Except Err (Dict × CState) :=
   match checkInputSection files sch (getConfigInput user) with
   | .error e => .error e
   | .ok cfgInput =>
     let input := (Dict.lookup cfgInput "input").getD .null
     let left := match subscript input "left" with | .ok v => v | .error _ => .null
     let right := match subscript input "right" with | .ok v => v | .error _ => .null
-    match checkPipelineSection (fileOracle files) reg (getConfigPipeline user)
+    match checkPipelineSection (fileOracle files) fl reg (getConfigPipeline user)
         (metadata files left) (metadata files right) m with
     | .error e => .error e
     | .ok (cfgPipe, m') =>
